@@ -13,7 +13,7 @@
   All theorems are [P]: every font record (any metrics, any spacing unless stated), every string, every
   position, every style. Characters are code points; `\n` = 10, `\r` = 13.
 
-  -- [V] drawn extent of a line (glyph bitmaps may leave columns of the line box empty when no background colour is set): the alignment theorems are about the line box `measure_string` reports and `draw_string` is given; the oracle checks the drawn extent with a background colour
+  -- [V] drawn extent of a line when NOT both a text and a background colour are set (glyph bitmaps may leave columns of the line box empty; with a background colour only the 'on' pixels stay untouched): there the alignment theorems are about the line box `measure_string` reports and `draw_string` is given, not about painted columns. With a text and a background colour the painted columns ARE the columns of that box: proved in Props/C15/DrawnExtent.lean (`line_box_fully_painted`, `drawn_columns_eq_measured_box`), the case the oracle checks
   -- [V] `i32` overflow of positions (`y += line_height`, `x + width`) is not modelled (C08): carried by correspondence + oracle only
   -- [V] observation outside the quantifier (custom font with spacing > 0, neither text nor background colour): `draw_string` returns one trailing spacing more than `measure_string` (`draw_next_transparent_with_spacing`, witness in corpus/C15.ops): the model follows the code; the oracle accepts both this value and the one `measure_string` predicts; not a claim of the property
 -/
